@@ -115,6 +115,15 @@ Definition encode_single (sd : bool) (dflt v : ostr) : enc :=
   | Some s => if negb (ostr_eqb v dflt) || sd then EAttr s else EAbsent
   end.
 
+(* EAttribute.get_default_value: what an absent feature reads as.  The declared
+   defaultValueLiteral (given here by the text of the value it denotes) wins over the
+   explicit default_value, which wins over the default of the data type. *)
+Definition effective_default (literal explicit type_default : ostr) : ostr :=
+  match literal with
+  | Some l => Some l
+  | None => match explicit with Some e => Some e | None => type_default end
+  end.
+
 (* load: nothing -> the default; xsi:nil -> None; attribute -> its text *)
 Definition decode_single (dflt : ostr) (e : enc) : ostr :=
   match e with
@@ -214,7 +223,9 @@ Definition put_enc (e : enc) : list Z :=
      2 k <ostr>*k             -> encode_many, then decode_many of it
      3 sd <ostr dflt> <ostr v>-> encode_single, then decode_single of it
      4 k <str>*k              -> encode_refs, then decode_refs of it (every prefix taken as registered)
-     5 <ostr id> <str frag>   -> ref_fragment *)
+     5 <ostr id> <str frag>   -> ref_fragment
+     6 sd <ostr literal> <ostr explicit> <ostr type default> <ostr v>
+                              -> effective default, encode_single against it, decode_single *)
 Definition run_xmiattr (t : list Z) : list Z :=
   match t with
   | 0 :: cs => map (fun c => if isspace c then 1 else 0) cs
@@ -229,6 +240,13 @@ Definition run_xmiattr (t : list Z) : list Z :=
   | 4 :: k :: r =>
     let (vs, _) := get_ostrs (Z.to_nat k) r in
     let e := encode_refs (map unsome vs) in put_enc e ++ put_ostrs (map Some (decode_refs (fun _ => true) e))
+  | 6 :: sd :: r =>
+    let (l, r1) := get_ostr r in
+    let (x, r2) := get_ostr r1 in
+    let (td, r3) := get_ostr r2 in
+    let (v, _) := get_ostr r3 in
+    let d := effective_default l x td in
+    let e := encode_single (sd =? 1) d v in put_ostr d ++ put_enc e ++ put_ostr (decode_single d e)
   | 5 :: r =>
     let (id, r1) := get_ostr r in
     let (f, _) := get_ostr r1 in
